@@ -253,7 +253,7 @@ Lemma K_apply_loop s0 rem m : forall s, K s0 s -> K s0 (apply_loop rem s m).
 Proof.
   induction rem as [|r IH]; intros s H; simpl.
   - destruct (get_m s m); auto. apply K_finish_m; auto.
-  - destruct (get_m s m) as [x|] eqn:G; auto. destruct (m_bad x).
+  - destruct (get_m s m) as [x|] eqn:G; auto. destruct (nth (m_idx x) (m_bad x) false).
     + apply IH. eapply K_put_m_same; eauto.
     + pose proof (K_try_start s0 s m x H (K_Pm _ _ _ _ H G)) as H1.
       destruct (try_start s m x) as [s' c]. cbn [fst] in H1. destruct c; auto.
